@@ -52,6 +52,10 @@ pub trait Campaign: Sync {
     fn name(&self) -> &str;
     fn strategy(&self) -> BoxedStrategy<Self::Case>;
     fn run_case(&self, case: &Self::Case, worker: usize) -> CaseReport;
+    /// shrink budget (process-level campaigns, whose cases take seconds, keep it tiny)
+    fn max_shrink_iters(&self) -> u32 {
+        3000
+    }
 }
 
 #[derive(Default)]
@@ -137,7 +141,7 @@ pub fn run_campaign<C: Campaign>(c: &C, ctx: &Ctx, cases_per_worker: u32) -> Sta
                 cfg.cases = cases_per_worker;
                 cfg.failure_persistence = None;
                 cfg.rng_seed = RngSeed::Fixed(ctx.seed.wrapping_mul(1_000_003).wrapping_add(w as u64 + 1));
-                cfg.max_shrink_iters = 3000;
+                cfg.max_shrink_iters = c.max_shrink_iters();
                 cfg.max_shrink_time = 0;
                 cfg.verbose = 0;
                 let mut runner = TestRunner::new(cfg);
